@@ -3,6 +3,7 @@ package eng
 import (
 	"fmt"
 	"math/big"
+	"strings"
 	"time"
 
 	sdk "github.com/cosmos/cosmos-sdk/types"
@@ -29,6 +30,15 @@ func RunHistory(t *rapid.T, prof *Profile, mons ...Monitor) {
 		}
 	}
 	w := NewWorld(t, g, prof, func(f string, a ...interface{}) { t.Fatalf(f, a...) }, mons...)
+	for _, n := range g.Notes {
+		if strings.HasPrefix(n, "populated{") {
+			w.Flags["populated-genesis"] = true
+		} else if strings.HasPrefix(n, "vesting{") {
+			w.Flags["vesting-account"] = true
+		} else if strings.HasPrefix(n, "prefix-ids{") {
+			w.Flags["prefix-ids-genesis"] = true
+		}
+	}
 	prelude := prof.Prelude
 	step := 0
 	t.Repeat(map[string]func(*rapid.T){
